@@ -23,6 +23,8 @@ def m_default(it, a, ty, callee):
         return MapModel()
     if t.startswith(('std::collections::HashSet<', 'std::collections::BTreeSet<')):
         return SetModel()
+    if t.startswith('std::sync::atomic::Atomic'):
+        return Int(0, 64, False)
     if t.startswith('std::sync::Arc<'):
         inner = t[len('std::sync::Arc<'):-1]
         return Ptr(Cell('arc', it.call('<%s as std::default::Default>::default' % inner, [], inner)))
@@ -47,6 +49,75 @@ def m_channel(it, a, ty, callee):
     cap = a[0].v if a and isinstance(a[0], Int) and a[0].conc else None
     cell = Cell('chan', Channel((), cap))
     return Tup([Ptr(cell), Ptr(cell)])
+
+
+def _chan(it, p):
+    while isinstance(p, Ptr) and not isinstance(it.load(p), Channel):
+        p = it.load(p)
+    return p
+
+
+def m_try_send(it, a, ty, callee):
+    """Sender::try_send: Ok(()) | Err(TrySendError::Full(v)) | Err(TrySendError::Closed(v))"""
+    p = _chan(it, a[0])
+    ch = it.load(p)
+    TSE = 'tokio::sync::mpsc::error::TrySendError'
+    if ch.closed:
+        return res_err(Adt(TSE, 1, [a[1]]))
+    if ch.cap is not None and len(ch.fields) >= ch.cap:
+        return res_err(Adt(TSE, 0, [a[1]]))
+    it.store(p, Channel(ch.fields + (a[1],), ch.cap, ch.closed))
+    return res_ok(UNIT)
+
+
+class SendFut(Model):
+    """the future returned by `Sender::send`: resolves on first poll (the harness channels never stay full)"""
+    __slots__ = ('chan', 'value')
+
+    def __init__(self, chan, value):
+        self.chan = chan
+        self.value = value
+
+
+def m_send(it, a, ty, callee):
+    return SendFut(_chan(it, a[0]), a[1])
+
+
+def m_send_poll(it, a, ty, callee):
+    fut = a[0]
+    if isinstance(fut, Adt) and fut.ty == 'std::pin::Pin':
+        fut = fut.fields[0]
+    f = it.load(fut) if isinstance(fut, Ptr) else fut
+    if not isinstance(f, SendFut):
+        raise Inconclusive('poll of an unmodelled tokio future: %r' % (f,))
+    ch = it.load(f.chan)
+    POLL = 'std::task::Poll'
+    if ch.closed:
+        return Adt(POLL, 0, [res_err(Adt('tokio::sync::mpsc::error::SendError', 0, [f.value]))])
+    if ch.cap is not None and len(ch.fields) >= ch.cap:
+        return Adt(POLL, 1, ())
+    it.store(f.chan, Channel(ch.fields + (f.value,), ch.cap, ch.closed))
+    return Adt(POLL, 0, [res_ok(UNIT)])
+
+
+def m_try_recv(it, a, ty, callee):
+    p = _chan(it, a[0])
+    ch = it.load(p)
+    TRE = 'tokio::sync::mpsc::error::TryRecvError'
+    if not ch.fields:
+        return res_err(Adt(TRE, 1 if ch.closed else 0, ()))
+    it.store(p, Channel(ch.fields[1:], ch.cap, ch.closed))
+    return res_ok(ch.fields[0])
+
+
+def m_sender_clone(it, a, ty, callee):
+    return it.load(a[0]) if isinstance(it.load(a[0]), Ptr) else a[0]
+
+
+def m_weak_upgrade(it, a, ty, callee):
+    p = _chan(it, a[0])
+    ch = it.load(p)
+    return opt_none() if ch.closed else opt_some(p)
 
 
 def m_arc_new(it, a, ty, callee):
@@ -168,12 +239,22 @@ def install(it):
     A(r'std::io::Error::kind', m_ioerr_kind)
     A(r'<std::io::ErrorKind as std::cmp::PartialEq>::(eq|ne)', m_kind_eq)
     A(r'<std::io::Error as std::convert::From<std::io::ErrorKind>>::from', m_ioerr_new)
-    A(r'<(?:u\d+|i\d+|usize|isize|bool|std::option::Option<.*>|std::vec::Vec<.*>|std::collections::\w+<.*>|std::string::String|indexmap::IndexMap<.*>|std::sync::Arc<.*>|parking_lot::lock_api::(?:RwLock|Mutex)<.*>) as std::default::Default>::default', m_default)
+    A(r'<(?:u\d+|i\d+|usize|isize|bool|std::option::Option<.*>|std::vec::Vec<.*>|std::collections::\w+<.*>|std::string::String|indexmap::IndexMap<.*>|std::sync::Arc<.*>|std::sync::atomic::Atomic.*|parking_lot::lock_api::(?:RwLock|Mutex)<.*>) as std::default::Default>::default', m_default)
     A(r'tokio::sync::mpsc::channel::<.*>', m_channel)
+    A(r'tokio::sync::mpsc::Sender::<.*>::try_send', m_try_send)
+    A(r'tokio::sync::mpsc::Sender::<.*>::send', m_send)
+    A(r'tokio::sync::mpsc::Receiver::<.*>::try_recv', m_try_recv)
+    A(r'<tokio::sync::mpsc::Sender<.*> as std::clone::Clone>::clone', m_sender_clone)
+    A(r'tokio::sync::mpsc::Sender::<.*>::downgrade', m_sender_clone)
+    A(r'tokio::sync::mpsc::WeakSender::<.*>::upgrade', m_weak_upgrade)
+    A(r'<\{async fn body of tokio::sync::mpsc::Sender<.*>::send\(\)\} as (?:std::future|futures)::Future>::poll', m_send_poll)
     A(r'std::sync::Arc::<.*>::new', m_arc_new)
     A(r'parking_lot::lock_api::(RwLock|Mutex)::<.*>::new', m_identity0)
     A(r'std::sync::atomic::Atomic(?:\w+|::<.*>)::new', m_atomic_new)
     A(r'std::sync::atomic::Atomic(?:\w+|::<.*>)::fetch_add', m_fetch_add)
     A(r'std::sync::atomic::Atomic(?:\w+|::<.*>)::load', m_atomic_load)
     A(r'futures::stream::FuturesUnordered::<.*>::new', m_empty_seq)
+    A(r'futures::stream::FuturesUnordered::<.*>::push', lambda it, a, ty, c: (it.store(a[0], Seq(it.load(a[0]).fields + (a[1],), 'vec')), UNIT)[1])
+    A(r'futures::stream::FuturesUnordered::<.*>::(len)', lambda it, a, ty, c: usize(len(it.load(a[0]).fields)))
+    A(r'futures::stream::FuturesUnordered::<.*>::(is_empty)', lambda it, a, ty, c: len(it.load(a[0]).fields) == 0)
     A(r'indexmap::IndexMap::<.*>::new', lambda it, a, ty, c: MapModel(kind='indexmap'))
